@@ -487,7 +487,7 @@ PROPS.update({
                     r"PANIC", r"MISSING-"]),
     "C04": gw_prop(["C04_checker_sound", "C04_side_condition_invariant", "C04_all_histories", "C04_refuted"],
                    [r"SN:(Regack|Suback|Register)", r"PANIC", r"MISSING-"]),
-    "C07": gw_prop(["C07_checker_sound", "C07_all_histories", "C07_connected_implies_accepted"],
+    "C07": gw_prop(["C07_checker_sound", "C07_all_histories", "C07_connected_implies_accepted", "C07_trace_all_histories"],
                    [r"SN:Connack", r"MQ:", r"^(END|CLOSE)", r"PANIC", r"MISSING-"]),
     "C08": gw_prop(["C08_checker_sound", "C08_all_histories", "C08_excluded_is_rejected"],
                    [r"MQ:CONNECT", r"SN:Connack", r"PANIC", r"MISSING-"]),
@@ -797,7 +797,8 @@ PROPS["C16"] = {
     "theorems": ["C16_retransmission_is_the_same_packet_with_DUP", "C16_gateway_stops_after_RetryCount",
                  "C16_gateway_relays_every_step", "C16_qos1_delivered_within_the_retry_budget", "C16_qos2_completes_exactly_once_with_one_loss",
                  "C16_register_step_survives_a_lost_regack", "C16_client_answers_every_PUBREL",
-                 "C16_sleep_survives_a_lost_disconnect_reply"],
+                 "C16_sleep_survives_a_lost_disconnect_reply", "C16_qos2_survives_any_loss_pattern",
+                 "C16_qos2_loss_pattern_delivery"],
     "drivers": ["drv_e2e.test", "drv_gw.test", "drv_client.test"],
     "units": [Unit("drv_e2e", unit_e2e), Unit("drv_gw", unit_gw), Unit("drv_client", unit_client)],
     "mismatch_kinds": [r"^(C2G|G2C|BR|BS|CB|RET)", r"EXTRA (C2G|G2C|BR|BS)", r"MISSING (C2G|G2C|BR|BS)",
